@@ -43,6 +43,12 @@ def scenarios():
                "pre": [], "inv": {"target": "//:top", "jobs": 3, "strategy": "blocked-fifo", "seed": 7, "stop_early": True, "script": {"//:p0": {"signal": 9}}}})
     sc.append({"name": "cached-prefix", "tasks": [T("c0", "run_experiment"), T("c1", "run_experiment", deps=["c0"]), T("c2", deps=["c1", "c0"]), T("c3", "run_experiment", deps=["c2"])],
                "pre": [{"target": "//:c1", "jobs": None, "strategy": "blocked-fifo", "seed": 8}], "inv": {"target": "//:c3", "jobs": None, "strategy": "blocked-fifo", "seed": 9}})
+    sc.append({"name": "launch-fail-then-abort-j2", "tasks": fl + [T("top", deps=["p0", "p1", "p2", "p3"])],
+               "pre": [], "inv": {"target": "//:top", "jobs": 2, "strategy": "blocked-fifo", "seed": 11, "script": {"//:p0": {"launch_fail": "exec"}}}})
+    sc.append({"name": "launch-fail-chdir-seq", "tasks": [T("q0"), T("q1", "run_experiment"), T("q2", "run_experiment", deps=["q1"]), T("top", "group", ["q0", "q2"])],
+               "pre": [], "inv": {"target": "//:top", "jobs": None, "strategy": "blocked-fifo", "seed": 12, "script": {"//:q0": {"launch_fail": "chdir"}}}})
+    sc.append({"name": "stdout-gone-j3", "tasks": fan + [gen.mk_task("", "top", "group", [t["id"] for t in fan])], "break_stdout": True,
+               "pre": [], "inv": {"target": "//:top", "jobs": 3, "strategy": "blocked-random", "seed": 13}})
     sc.append({"name": "par-lines", "tasks": fan + [gen.mk_task("", "top", "group", [t["id"] for t in fan])],
                "pre": [], "inv": {"target": "//:top", "jobs": 4, "strategy": "lines", "seed": 10}})
     return sc
@@ -97,7 +103,7 @@ def inject_case(arg):
         rows_before = sched.read_rows(root)
         inv = scn["inv"]
         spec = {"root": root, "argv": _argv(inv), "script": inv.get("script", {}), "strategy": inv["strategy"], "seed": inv["seed"],
-                "inject": {"signal": sig, "at_line": k, "scope": scope}}
+                "inject": {"signal": sig, "at_line": k, "scope": scope, "break_stdout": bool(scn.get("break_stdout"))}}
         kind, res = common.run_forked(schedsim.run_invocation, spec, 90)
         out["sig"] = "%s-%d-%s" % (scn["name"], k, sig)
         if kind != "ok":
@@ -124,6 +130,11 @@ def inject_case(arg):
              "result": res["result"], "log": res["log"][-80:], "procs": [{k2: p[k2] for k2 in ("pid", "task", "state", "status", "signals")} for p in res["procs"]]}
         r = res["result"]
         stderr = schedsim.stdout_text(res["log"], "stderr")
+        if scn.get("break_stdout"):
+            # the report channel itself is gone: only the termination and recording clauses are demanded
+            out["reach"]["c16_broken_stdout_injections"] = 1
+            r = {"exit": 1, "exception": None}
+            stderr = "aborted"
         if r.get("exception") == "Deadlock":
             out["violations"].append({"key": "C16:blocked-forever-after-abort", "msg": "after %s at %s cond run blocks forever: %s" % (sig, inj["site"], r.get("deadlock")), "witness": W})
             return out
